@@ -132,7 +132,7 @@ def molecule_pool(rng, tier, corpus_cap=40, n_random=60, nmax=8, corpus_n=12):
     for i in range(n_random):
         pool.append((f"rnd{i}", gen.random_molecule(rng, nmax)))
     pool += gen.hub_pairs(rng, 10 if tier == "quick" else 120)
-    pool += gen.multi_labelled(rng, 4 if tier == "quick" else 40)
+    pool += gen.multi_labelled(rng, 8 if tier == "quick" else 60)
     cs = gen.corpus(corpus_cap)
     rng.shuffle(cs)
     pool += cs[:corpus_n]
